@@ -29,7 +29,8 @@ def run(rep, tier, seed, replay):
         pairs = [(k, replay["input"]["path"]) for k in built]
     rep.evaluations = len(pairs)
     res = h.ask(["MO %s %s" % (P.hx[k], hexs(p)) for k, p in pairs])
-    mres = m.ask(["M %s %s" % (P.hx[k], hexs(p)) for k, p in pairs])
+    # the model's matcher is a plain backtracker (exponential in the worst case): short time limit, timeouts are counted
+    mres = m.ask(["M %s %s" % (P.hx[k], hexs(p)) for k, p in pairs], timeout=15)
     model_has_m = not all(x == "bad-op" for x in mres[:50]) if mres else False
     findings, _ = common.load_findings("C04")
     finding_ids = {f["id"] for f in findings}
@@ -48,7 +49,7 @@ def run(rep, tier, seed, replay):
             continue
         if not matched:
             rep.stats["no-match"] += 1
-            if model_has_m and not ml.startswith("nomatch"):
+            if model_has_m and not ml.startswith("nomatch") and not ml.startswith("died"):
                 rep.violation("correspondence", "captures: the leftmost-first model matches a path the crate rejects", inp, impl=line[:200], model=ml[:200])
             continue
         rep.stats["match"] += 1
@@ -137,7 +138,9 @@ def run(rep, tier, seed, replay):
                     if len(g2) != len(want) or any(fold(a) != fold(b) for a, b in zip(g2, want)):
                         problems.append("GAP:the text %r between captures is not what the literals %r between the sub-expressions match" % (gap, want))
                         break
-        if model_has_m:
+        if model_has_m and ml.startswith("died"):
+            rep.stats["model-timeout"] += 1
+        elif model_has_m:
             mcaps = ml.split(" ")[1:] if ml.startswith("match") else None
             icaps = [("n" if v is None else "s:" + hexs(v[0])) for v in vals] + ["n"]
             if mcaps != icaps:
